@@ -30,16 +30,24 @@ pub fn object_bytes(size: usize, salt: usize) -> Vec<u8> {
 
 /// One device with a CoE mailbox of `mbx` bytes, brought to PRE-OP.
 pub fn bring_up(mbx: usize, prepare: impl FnOnce(&mut CoeServer)) -> Result<(Net, SubDeviceGroup<2, 32>), String> {
+    bring_up2(mbx, mbx, prepare)
+}
+
+/// `mbx_in`: the device's receive (master write) mailbox, `mbx`: its send (master read) mailbox.
+pub fn bring_up2(mbx_in: usize, mbx: usize, prepare: impl FnOnce(&mut CoeServer)) -> Result<(Net, SubDeviceGroup<2, 32>), String> {
     let cfg = DevCfg { stale_addr: 0, read8: true, named: true, mailbox: true, dc: 0, busy: 0 };
     let mut desc = describe_device(0, &cfg);
     if let Some(m) = desc.mailbox.as_mut() {
-        m.rx_size = mbx as u16;
+        m.rx_size = mbx_in as u16;
         m.tx_size = mbx as u16;
         m.rx_offset = 0x1800;
         m.tx_offset = 0x1c00;
     }
     for s in desc.sms.iter_mut() {
-        if s.usage == 1 || s.usage == 2 {
+        if s.usage == 1 {
+            s.len = mbx_in as u16;
+        }
+        if s.usage == 2 {
             s.len = mbx as u16;
         }
     }
